@@ -4,6 +4,7 @@
   /repo/validation/validationhelper/uuid.go, regenerated on every run.
 -/
 import Gvlean.Proofs.Uuid
+import Gvlean.Proofs.UuidCase
 
 namespace Props
 open Go Spec
@@ -23,6 +24,11 @@ theorem c13_no_panic (s : Bytes) : ∃ b, Gen.IsValidUUID s = .ok b := ⟨_, c13
 /-- wrong length is always rejected -/
 theorem c13_length (s : Bytes) (h : s.length ≠ 36) : Gen.IsValidUUID s = .ok false := by
   rw [c13]; simp [uuidSpecB, uuidShape, h]
+
+/-- the verdict does not depend on the case of hexadecimal letters: swapping the case of any
+    subset of positions (selected by `σ`) leaves the verdict unchanged -/
+theorem c13_case (σ : Nat → Bool) (s : Bytes) : Gen.IsValidUUID (caseMap σ s) = Gen.IsValidUUID s := by
+  rw [c13, c13, Proofs.uuidSpecB_caseMap]
 
 -- non-vacuity: concrete members and non-members (decided by the kernel)
 /-- "550e8400-e29b-41d4-a716-446655440000" -/
